@@ -30,7 +30,8 @@ def interpret_paren_action(ctx, g, p):
     -> [(kind of the inner node, ok, what came back)] or None when the action is not interpretable (the dataflow rule decides then)"""
     from ..interp import Interp, Obj, Raised, Env
     inner = p.rhs[1]
-    kinds = ('BinaryOperation',) if inner == 'expr' else (('Select', 'Union') if inner in ('union', 'query') else ('Select',))
+    # around an operand, parentheses regroup whatever operation is inside them: a binary one, BETWEEN, and a unary NOT / minus alike ((NOT a) = b)
+    kinds = ('BinaryOperation', 'UnaryOperation', 'BetweenOperation') if inner == 'expr' else (('Select', 'Union') if inner in ('union', 'query') else ('Select',))
     out = []
     for kind in kinds:
         node = Obj(kind, parentheses=False, alias=None, targets=[Obj('Identifier', parts=['c1'], alias=None), Obj('Identifier', parts=['c2'], alias=None)])
@@ -47,7 +48,8 @@ def interpret_paren_action(ctx, g, p):
             else:
                 rec[s_] = v
         stubs = {'Identifier': lambda it, *a, **k: Obj('Identifier', parts=list(k.get('parts') or (a[0] if a else [])), alias=k.get('alias'))}
-        it = Interp.for_file(ctx.src, g.file, {'Select': {'ASTNode'}, 'Union': {'ASTNode'}, 'BinaryOperation': {'ASTNode', 'Operation'}, 'Identifier': {'ASTNode'}}, stubs)
+        it = Interp.for_file(ctx.src, g.file, {'Select': {'ASTNode'}, 'Union': {'ASTNode'}, 'BinaryOperation': {'ASTNode', 'Operation'}, 'UnaryOperation': {'ASTNode', 'Operation'},
+                                               'BetweenOperation': {'ASTNode', 'Operation'}, 'Identifier': {'ASTNode'}}, stubs)
         try:
             ret = it.call_function(p.func, [Obj('Parser'), rec], {}, Env())
         except Raised as r:
@@ -581,6 +583,88 @@ def check_token_level_roundtrip(ctx, model):
     ctx.floor('token_level_rows', 40)
 
 
+# ---- a clause with a falsy value is still printed -------------------------------------------------------------------------------------------------------
+
+def numeric_fields(ctx, model):
+    """{(class, field)} whose value the grammars build from a number nonterminal (int / float kinds reach the constructor keyword): such a field can be 0"""
+    from ..actions import kinds_for
+    from ..source import memo_on
+
+    def build():
+        out = {}
+        for d in DIALECTS:
+            g = load_dialect(ctx.src, d)
+            ak = kinds_for(ctx.src, d)
+            for p in g.productions[1:]:
+                if p.func is None or p.from_star:
+                    continue
+                calls = [n for n in ast.walk(p.func) if isinstance(n, ast.Call) and isinstance(n.func, ast.Name) and n.func.id in model.classes and n.keywords]
+                pvar = p.func.args.args[1].arg
+                # attribute stores on a node a symbol of the production delivers: p.create_predictor.window = p.integer
+                for st in [n for n in ast.walk(p.func) if isinstance(n, ast.Assign) and len(n.targets) == 1 and isinstance(n.targets[0], ast.Attribute)]:
+                    try:
+                        base = ak.ev(st.targets[0].value, {}, p, pvar, None)
+                        val = ak.ev(st.value, {}, p, pvar, None)
+                    except AnalysisError:
+                        continue
+                    if val is not None and val.kinds & {'int', 'float'} and base is not None and base.known:
+                        for cn_ in base.kinds:
+                            if cn_ in model.classes:
+                                out.setdefault((cn_, st.targets[0].attr), f'{d}: {p}')
+                if not calls:
+                    continue
+                for c in calls:
+                    names = [k.arg for k in c.keywords if k.arg]
+                    try:
+                        kinds = _kw_kinds(ak, p, pvar, c, names)
+                    except AnalysisError:
+                        continue
+                    for nm, v in kinds.items():
+                        if v is not None and v.kinds & {'int', 'float'}:
+                            out.setdefault((c.func.id, nm), f'{d}: {p}')
+        return out
+    return memo_on(ctx.src, ('numeric-fields',), build)
+
+
+def check_falsy_values_printed(ctx, model):
+    """A field the grammars fill from a number can be 0: a printer that decides by the truthiness of the field (`if self.window`) drops `WINDOW 0` from the text,
+    and the re-parsed tree has no window.  Presence must be tested with `is not None`."""
+    nf = numeric_fields(ctx, model)
+    ctx.setcount('numeric_fields', len(nf))
+    n = 0
+    for (cn, f), where in sorted(nf.items()):
+        for ci in [c for c in model.classes.get(cn, [])]:
+            for owner in model.mro(ci):
+                for mname in ('get_string', 'to_string'):
+                    fn = owner.methods.get(mname)
+                    if fn is None:
+                        continue
+                    for t in ast.walk(fn):
+                        tests = []
+
+                        def empty(e):
+                            return isinstance(e, ast.Constant) and e.value in ('', None)
+                        if isinstance(t, ast.IfExp) and (empty(t.body) or empty(t.orelse)):
+                            tests = [t.test]            # `<clause> if self.f else ''`: the test decides whether the clause is printed at all
+                        elif isinstance(t, ast.If) and (not t.orelse or all(isinstance(x, ast.Assign) and empty(x.value) for x in t.orelse)):
+                            tests = [t.test]
+                        elif isinstance(t, ast.BoolOp):
+                            tests = t.values[:-1] if isinstance(getattr(t, '_parent', None), (ast.Assign, ast.Return, ast.FormattedValue, ast.Call)) else []
+                        for test in tests:
+                            atoms = test.values if isinstance(test, ast.BoolOp) else [test]
+                            for a in atoms:
+                                a0 = a.operand if isinstance(a, ast.UnaryOp) and isinstance(a.op, ast.Not) else a
+                                if isinstance(a0, ast.Attribute) and isinstance(a0.value, ast.Name) and a0.value.id == 'self' and a0.attr == f:
+                                    n += 1
+                                    ctx.ob('C01.falsy-value-printed', f'{owner.name}.{mname}:{f}', False,
+                                           f'{owner.name}.{mname} decides by the truthiness of `self.{f}` whether the clause is printed, but the grammar fills {cn}.{f} from a '
+                                           f'number ({where}): the value 0 is dropped from the text and the statement re-parses without it', file=owner.file,
+                                           line=a0.lineno, witness='create model m predict y window 0')
+    ctx.setcount('truthiness_tests_on_numeric_fields', n)
+    ctx.ob('C01.falsy-value-printed', 'all', True, '')
+    ctx.floor('numeric_fields', 3)
+
+
 # ---- names kept as raw token text are printed as that text --------------------------------------------------------------------------------------------
 
 RAW_IDS = ['col1', 'a$b', '`my col`', '`a.b`', 'status', 'Model']
@@ -773,6 +857,7 @@ def run(ctx):
     check_leaves(ctx, model)
     check_token_level_roundtrip(ctx, model)
     check_raw_text_fields(ctx, model)
+    check_falsy_values_printed(ctx, model)
     check_stored_text_stable(ctx)
     # codec (shared with C04): string literals and identifiers
     sub_findings = []
